@@ -320,6 +320,7 @@ def render_vmodule(case, cx):
     `($out.sN = <site>)` so that its value is observable wherever it occurs; nested functions,
     arrows and classes are invoked right after their declaration so that their sites run."""
     sites = list(case["sites"])
+    variant = case.get("variant", 0)
     if '"k": "assign"' in json.dumps(case["module"]):
         cx.lets.add("a")
         cx.bind("a", {"t": "pvnode", "id": "pva"}, "let")
@@ -346,11 +347,14 @@ def render_vmodule(case, cx):
             return "a = " + (site_expr() if it["rhs"]["k"] == "site" else "$v(\"a2\")")
         if k == "arrow":
             return "() => " + item_expr(it["item"])
+        if k == "arrowp":
+            par = site_expr()          # the parameter default is visited (and numbered) before the body
+            return f"(p = {par}) => " + item_expr(it["item"])
         raise ValueError("item in expression position: " + k)
 
     def calls(it):
         n = 1
-        while it["k"] == "arrow" and it["item"]["k"] == "arrow":
+        while it["k"] in ("arrow", "arrowp") and it["item"]["k"] in ("arrow", "arrowp"):
             n += 1
             it = it["item"]
         return "()" * n
@@ -372,26 +376,61 @@ def render_vmodule(case, cx):
                 out.append(pad + f'const {it["name"]} = "user{it["name"]}"; $out.u{it["name"]} = {it["name"]};')
             elif k == "fn":
                 g = fresh("g")
-                out.append(pad + f"function {g}() {{")
-                out += stmts(it["body"], ind + 1)
-                out.append(pad + f"}} {g}();")
+                form = ("decl", "method", "getter", "static", "decl", "fnexpr", "method", "async")[variant % 8]
+                if form == "async" and ind > 0:
+                    form = "fnexpr"        # (an awaited call needs the module level)
+                inner = stmts(it["body"], ind + 1)
+                if form == "decl":
+                    out += [pad + f"function {g}() {{"] + inner + [pad + f"}} {g}();"]
+                elif form == "method":
+                    out += [pad + f"class {g} {{ m() {{"] + inner + [pad + f"}} }} new {g}().m();"]
+                elif form == "getter":
+                    out += [pad + f"class {g} {{ get v() {{"] + inner + [pad + f"return 1; }} }} new {g}().v;"]
+                elif form == "static":
+                    out += [pad + f"class {g} {{ static {{"] + inner + [pad + "} }"]
+                elif form == "fnexpr":
+                    out += [pad + f"const {g} = function () {{"] + inner + [pad + f"}}; {g}();"]
+                else:
+                    # awaited, so that an error inside is an error of the evaluation (top-level await at module level only)
+                    out += [pad + f"const {g} = {{ async m() {{"] + inner + [pad + f"}} }}; " + f"await {g}.m();"]
             elif k == "fnparam":
                 g = fresh("d")
                 out.append(pad + f"function {g}(p = {site_expr()}) {{")
                 out += stmts(it["body"], ind + 1)
                 out.append(pad + f"}} {g}();")
-            elif k == "arrow":
+            elif k in ("arrow", "arrowp"):
                 g = fresh("w")
                 out.append(pad + f"const {g} = {item_expr(it)}; {g}{calls(it)};")
+            elif k == "arrowblockp":
+                g = fresh("b")
+                out.append(pad + f"const {g} = (p = {site_expr()}) => {{")
+                out += stmts(it["body"], ind + 1)
+                out.append(pad + f"}}; {g}();")
             elif k == "arrowblock":
                 g = fresh("b")
                 out.append(pad + f"const {g} = () => {{")
                 out += stmts(it["body"], ind + 1)
                 out.append(pad + f"}}; {g}();")
             elif k == "block":
-                out.append(pad + "{")
-                out += stmts(it["body"], ind + 1)
-                out.append(pad + "}")
+                form = ("plain", "switch", "forof", "dowhile", "label", "while", "if", "else")[variant % 8]
+                inner = stmts(it["body"], ind + 1)
+                if form == "plain":
+                    out += [pad + "{"] + inner + [pad + "}"]
+                elif form == "switch":
+                    out += [pad + "switch (1) { case 1:"] + inner + [pad + "}"]
+                elif form == "forof":
+                    out += [pad + f"for (const {fresh('q')} of [1]) {{"] + inner + [pad + "}"]
+                elif form == "dowhile":
+                    out += [pad + "do {"] + inner + [pad + "} while (false);"]
+                elif form == "else":
+                    out += [pad + "if (false) ; else {"] + inner + [pad + "}"]
+                elif form == "label":
+                    out += [pad + f"{fresh('lbl')}: {{"] + inner + [pad + "}"]
+                elif form == "while":
+                    w = fresh("w")
+                    out += [pad + f"let {w} = 0; while ({w}++ < 1) {{"] + inner + [pad + "}"]
+                else:
+                    out += [pad + "if (true) {"] + inner + [pad + "}"]
             elif k == "vueimport":
                 imp, loc = it["names"]
                 out.append(pad + (f"import {{ {imp} }} from 'vue';" if imp == loc else f"import {{ {imp} as {loc} }} from 'vue';")
@@ -624,8 +663,14 @@ def render_ts(case):
     place = case.get("place", "before")
     exported = place.startswith("exported")
     decls = [ts_decl(d, exported) for d in case.get("decls", [])]
+    fn_form = None
     if kind in ("props", "rtype"):
-        params = f'(props: {ts_type(case["type"])})'
+        pf = case.get("pform", "plain")
+        T = ts_type(case["type"])
+        params = {"plain": f"(props: {T})", "destructured": f"({{ zz }}: {T})", "empty_default": f"(props: {T} = {{}})",
+                  "function": f"(props: {T})", "with_ctx": f"(props: {T}, {{ emit, slots }}: SetupContext)"}[pf]
+        if pf == "function":
+            fn_form = f"function {params} {{ return () => null }}"
     elif kind == "emits":
         cf = case.get("ctxform", "plain")
         pname = "{ emit }" if "destructured" in cf else "ctx"
@@ -634,7 +679,7 @@ def render_ts(case):
             else f'(props: {{ a?: string }}, ctx)'
     else:
         raise ValueError("ts case " + kind)
-    call = f"defineComponent({params} => () => null)"
+    call = f"defineComponent({fn_form})" if fn_form else f"defineComponent({params} => () => null)"
     if place in ("before", "exported_before"):
         lines += decls + [f"export const C = {call}"]
         exports.append({"name": "C", "kind": "value"})
@@ -646,6 +691,15 @@ def render_ts(case):
         lines += ["  " + ts_decl(d) for d in case["shadow"]]
         lines += [f"  return {call}", "}"]
         exports.append({"name": "C", "kind": "value"})
+        exports.append({"name": "mk", "kind": "thunk"})
+    elif place == "split_scope":
+        root = case["type"]["name"]
+        ds = case.get("decls", [])
+        lines += [ts_decl(d) for d in ds if d["name"] != root]
+        lines.append("export function mk() {")
+        lines += ["  " + ts_decl(d) for d in ds if d["name"] == root]
+        lines.append(f"  return {call}")
+        lines.append("}")
         exports.append({"name": "mk", "kind": "thunk"})
     elif place in ("scoped", "scoped_shadowing"):
         if place == "scoped_shadowing":
